@@ -210,6 +210,26 @@ Proof.
   split; [reflexivity|]. eexists. split; [vm_compute; reflexivity|]. split; vm_compute; reflexivity.
 Qed.
 
+(* non-vacuity of the default-epsilon theorems: the same plan with a timed goal up to GLOBAL_END; extract_epsilon = 1,
+   epsilon = 1/1000 *)
+Example C26_default_epsilon_nonvacuous :
+  let effs := [ {| tg_anchor := FromStart; tg_delay := 1 |} ] in
+  let conds := [ {| iv_lo := {| tg_anchor := FromStart; tg_delay := 2 |}; iv_hi := {| tg_anchor := FromEnd; tg_delay := 0 |};
+                    iv_lopen := true; iv_ropen := false |} ] in
+  let a := {| st_start := 0; st_dur := Some 2;
+              st_effs := [ {| tg_anchor := FromEnd; tg_delay := 0 |} ];
+              st_conds := [ {| iv_lo := {| tg_anchor := FromStart; tg_delay := 0 |};
+                               iv_hi := {| tg_anchor := FromEnd; tg_delay := 0 |}; iv_lopen := true; iv_ropen := false |} ];
+              st_dyn := true |} in
+  let b := {| st_start := 2; st_dur := None; st_effs := []; st_conds := []; st_dyn := false |} in
+  let plan := [a; b] in
+  mock_end_ok (mock_step effs conds) = true /\
+  extract_epsilon (mock_step effs conds) plan = Some 1 /\
+  Qeq_bool (choose_eps None (Some 1)) (1 # 1000) = true /\
+  times_nonneg plan = true /\
+  length (plan_events (choose_eps None (Some 1)) (mock_step effs conds) plan) = 6%nat.
+Proof. cbv zeta. repeat split; vm_compute; reflexivity. Qed.
+
 (* the gap hypothesis is a real restriction: with eps = 1 the same events are too close *)
 Example C26_gap_hypothesis_can_fail :
   gap_ok 1 [ {| e_time := 0; e_gen := 1; e_skew := 0 |}; {| e_time := 1 # 2; e_gen := 2; e_skew := 0 |} ] = false.
